@@ -24,10 +24,13 @@ ASSUMPTIONS = [
 ]
 N = {'quick': 600, 'thorough': 4000}
 SHAPES = ['direct', 'map_above', 'rev_slice', 'batch2', 'chain', 'items_below', 'items_map', 'concat_below', 'copied',
-          'copied_frozen', 'warn', 'list_zip_warn']
-RAISED = ['FilterException', 'VErrA', 'VErrB', 'VErrC', 'ValueError', 'IndexError', 'VBase']
+          'copied_frozen', 'warn', 'list_zip_warn', 'cache_below']
+# incl. exceptions from the OSError family (a missing file is THE everyday failure of a loading function) and
+# NotImplementedError (which the library itself uses for "items() not defined")
+RAISED = ['FilterException', 'VErrA', 'VErrB', 'VErrC', 'ValueError', 'IndexError', 'VBase', 'FileNotFoundError',
+          'NotImplementedError']
 SPECS = [None, 'VErrA', ['VErrA', 'VErrC'], 'Exception', 'ValueError', 'LookupError', ['KeyError', 'VErrC'], [],
-         ['VBase', 'VErrA']]
+         ['VBase', 'VErrA'], 'OSError']
 
 
 def plan(tier):
@@ -64,6 +67,8 @@ def make(kind, n, fail, shape, spec):
         if kind != 'dict':
             return None
         node = {'op': 'map', 'fn': 2, 'in': {'op': 'items', 'in': node}}
+    elif shape == 'cache_below':
+        node = {'op': 'cache', 'lazy': True, 'in': node}  # a memory cache between the failing stage and the catch
     out = {'op': 'catch', 'exc': spec, 'in': node}
     if shape == 'copied':
         out = {'op': 'copy', 'freeze': False, 'in': out}
@@ -119,7 +124,7 @@ def three_way(node, mm, r, as_int=False):
     outs = []
     for prog in (lazy, eager, viacatch):
         ds, _ = progcheck.build_checked(prog)
-        got, exc, _ = observe.take(lambda: ds, 200)
+        got, exc, _ = observe.take(lambda: ds, ev(node).n + 10)
         if exc is not None:
             raise Violation(f'three-way-raised|{prog["op"]}', f'program: {progs.show(prog)}\n{observe.describe_exc(exc)}')
         outs.append(got)
